@@ -9,7 +9,7 @@ from .c01 import check_event
 
 ID = 'C02'
 RULE = ('cases: histories of 1..4 version-2 dumps parsed in sequence through the SAME threads_pids/pids_names dict '
-        'objects (KdBufParser.parse, PyKdebugParser.kevents, or alternating). Each dump = header (random filler '
+        'objects (KdBufParser.parse, PyKdebugParser.kevents, a default-constructed KdBufParser(), or alternating). Each dump = header (random filler '
         'in its unused fields) + thread map of 0..40 entries (full-range tids/pids, pooled duplicates, utf-8 names '
         '<= 19 bytes, optional garbage after the NUL) + zero padding {0,1..7,8..4096} + 0..60 records '
         '(random/structured bytes; records beginning with 1..63 zero bytes and all-zero records forced in). '
